@@ -434,7 +434,10 @@ func (s *ser) element(n *Node, sc scope, role int) {
 		}
 	}
 	// re-validate: every chosen prefix must still resolve to its namespace in cur
-	ok := func(p, ns string) bool { v, b := cur.lookupPrefix(p); return (b && v == ns) || (!b && ns == "" && p == "") }
+	ok := func(p, ns string) bool {
+		v, b := cur.lookupPrefix(p)
+		return (b && v == ns) || (!b && ns == "" && p == "")
+	}
 	if !ok(ep, n.NS) {
 		ep = choose(n.NS, false)
 	}
